@@ -14,11 +14,17 @@ OPS = ['<', '<=', '==', '!=', '>', '>=']
 def pyop(op, a, b):
     return {'<': a < b, '<=': a <= b, '==': a == b, '!=': a != b, '>': a > b, '>=': a >= b}[op]
 
-BUILDS = ['raw', 'int_resize_raw', 'int_resize_equal', 'like_int']
+BUILDS = ['raw', 'int_resize_raw', 'int_resize_equal', 'like_int', 'u64list_raw']
 def build(fx, np, s, nw, nf, codes, shape=None, how='raw'):
     """an object holding the given raw codes, reached through different histories (the hidden value type differs: an object built
     from integers keeps an integer value type until a write resets it)"""
     if how == 'raw' or nw >= 64: return A.mk(fx, np, s, nw, nf, codes, shape=shape)
+    if how == 'u64list_raw':
+        # built from a LIST of NumPy uint64 scalars (the value type is then the dtype instance uint64, not a Python type), then written raw
+        x = fx.Fxp([np.uint64(1), np.uint64(0)], s, nw, nf)
+        if shape is None: x = x[0]; x.set_val(codes, raw=True)
+        else: x.set_val(np.array(codes).reshape(shape), raw=True)
+        return x
     zero = 0 if shape is None else np.zeros(shape, dtype=np.int64)
     if how == 'like_int':
         tmpl = fx.Fxp(zero, s, nw, 0)
